@@ -103,6 +103,7 @@ Fixpoint ncommits (evs : list event) : N :=
   match evs with
   | [] => 0
   | ECommit :: tl => 1 + ncommits tl
+  | ECommitBump :: tl => 1 + ncommits tl
   | _ :: tl => ncommits tl
   end.
 
@@ -134,11 +135,38 @@ Proof. intros Hc Hr. rewrite ver_le_small by lia. apply N.leb_gt. lia. Qed.
 
 (* ---------------------------------------------------------------- one step *)
 
+Lemma publish_eq s wr :
+  w_new wr = z_cur s + 1 -> z_cur s + 2 < 4294967296 ->
+  publish s wr = mkz (z_cur s + 1) (z_apex s) (z_nodes s) (Some (mkw (z_cur s + 2) false false))
+                     (if w_open wr then Some (z_cur s + 1) else z_handle s).
+Proof.
+  intros Hnew Hlim. unfold publish. cbv [publish_sets_current_to_new publish_advances_new_version publish_clears_dirty].
+  rewrite Hnew. rewrite ver_next_small by lia. f_equal. do 2 f_equal. lia.
+Qed.
+
+Lemma publish_inv s wr :
+  w_new wr = z_cur s + 1 -> z_cur s + 2 < 4294967296 -> z_q (z_cur s) (z_cur s + 1) s ->
+  zinv (publish s wr) /\ z_cur (publish s wr) = z_cur s + 1 /\ same_data (publish s wr) s.
+Proof.
+  intros Hnew Hlim Hq. rewrite (publish_eq s wr Hnew Hlim). split; [|split; [reflexivity|split; reflexivity]].
+  unfold zinv. cbn [z_writer z_cur w_new w_dirty w_open].
+  split; [lia|split; [discriminate|]]. destruct (z_q_le _ _ Hq) as [H1 H2]. split; assumption.
+Qed.
+
+(* commit(true) is a data operation of the writer (SOA at the apex) before the publish *)
+Lemma bump_is_data s wr :
+  bump_soa s wr = s \/ exists x, bump_soa s wr = data_op s (w_new wr) (EUpdate [] 6 x).
+Proof.
+  unfold bump_soa. destruct (rs_get (z_apex s) 6 (z_cur s)) as [old|]; [|now left].
+  destruct (match rs_get (z_apex s) 6 (w_new wr) with None => true | Some new => new =? old end); [|now left].
+  right. exists (ver_next old). reflexivity.
+Qed.
+
 Lemma step_inv s e :
   zinv s -> z_cur s + 2 < LIM -> stale_ok e ->
   zinv (step s e) /\
   z_cur s <= z_cur (step s e) /\
-  z_cur (step s e) <= z_cur s + (match e with ECommit => 1 | _ => 0 end) /\
+  z_cur (step s e) <= z_cur s + (match e with ECommit | ECommitBump => 1 | _ => 0 end) /\
   (forall r, r <= z_cur s -> view_eq (step s e) s r).
 Proof.
   unfold LIM. intros Hinv Hlim Hstale.
@@ -196,19 +224,34 @@ Proof.
   - (* ECommit *)
     destruct (z_writer s) as [wr|] eqn:Hw.
     + unfold zinv in Hinv. rewrite Hw in Hinv. destruct Hinv as [Hnew [Hod Hq]].
-      assert (E : step s ECommit = mkz (z_cur s + 1) (z_apex s) (z_nodes s) (Some (mkw (z_cur s + 2) false false))
-                                       (if w_open wr then Some (z_cur s + 1) else z_handle s)).
-      { cbn [step]. rewrite Hw. cbv [publish_sets_current_to_new publish_advances_new_version publish_clears_dirty].
-        rewrite Hnew. rewrite ver_next_small by lia. f_equal. do 2 f_equal. lia. }
-      rewrite E.
-      split; [|split; [|split]]; cbn [z_cur]; try lia.
-      * unfold zinv. cbn [z_writer z_cur w_new w_dirty w_open].
-        split; [lia|split; [discriminate|]].
-        destruct (w_dirty wr).
-        -- destruct (z_q_le _ _ Hq) as [H1 H2]. split; assumption.
-        -- destruct (z_le_weaken (z_cur s) (z_cur s + 1) s ltac:(lia) Hq) as [H1 H2]. split; assumption.
-      * intros r _. apply view_of_same. split; reflexivity.
+      assert (Hq0 : z_q (z_cur s) (z_cur s + 1) s).
+      { destruct (w_dirty wr); [exact Hq|]. apply z_le_q; [lia|exact Hq]. }
+      assert (E : step s ECommit = publish s wr) by (cbn [step]; now rewrite Hw). rewrite E.
+      destruct (publish_inv s wr Hnew ltac:(lia) Hq0) as [H1 [H2 H3]].
+      split; [exact H1|split; [lia|split; [lia|]]]. intros r _. now apply view_of_same.
     + assert (E : step s ECommit = s) by (cbn [step]; now rewrite Hw). rewrite E. exact (Hsame _).
+  - (* ECommitBump *)
+    destruct (z_writer s) as [wr|] eqn:Hw.
+    + unfold zinv in Hinv. rewrite Hw in Hinv. destruct Hinv as [Hnew [Hod Hq]].
+      assert (Hq0 : z_q (z_cur s) (z_cur s + 1) s).
+      { destruct (w_dirty wr); [exact Hq|]. apply z_le_q; [lia|exact Hq]. }
+      assert (E : step s ECommitBump = publish (bump_soa s wr) wr) by (cbn [step]; now rewrite Hw). rewrite E.
+      assert (Hb : z_cur (bump_soa s wr) = z_cur s /\ z_q (z_cur s) (z_cur s + 1) (bump_soa s wr) /\
+                   forall r, r <= z_cur s -> view_eq (bump_soa s wr) s r).
+      { destruct (bump_is_data s wr) as [->|[x ->]]; [split; [reflexivity|split; [exact Hq0|intros; apply view_eq_refl]]|].
+        rewrite Hnew. destruct (data_op_base (z_cur s) (z_cur s + 1) s (EUpdate [] 6 x) ltac:(lia) Hq0) as [Hq' Heqv].
+        split; [reflexivity|split; [exact Hq'|]]. intros r Hr.
+        apply (view_eq_trans _ (z_rollback (data_op s (z_cur s + 1) (EUpdate [] 6 x)) (z_cur s + 1))).
+        - apply view_eq_sym. apply view_of_base. apply below_open; unfold LIM; lia.
+        - apply (view_eq_trans _ (z_rollback s (z_cur s + 1))).
+          + apply view_eq_sym. now apply view_of_eqv.
+          + apply view_of_base. apply below_open; unfold LIM; lia. }
+      destruct Hb as [Hc0 [Hqb Hvb]].
+      destruct (publish_inv (bump_soa s wr) wr ltac:(rewrite Hc0; exact Hnew) ltac:(rewrite Hc0; lia) ltac:(rewrite Hc0; exact Hqb)) as [H1 [H2 H3]].
+      rewrite Hc0 in H2.
+      split; [exact H1|split; [lia|split; [lia|]]]. intros r Hr.
+      apply (view_eq_trans _ (bump_soa s wr)); [now apply view_of_same|now apply Hvb].
+    + assert (E : step s ECommitBump = s) by (cbn [step]; now rewrite Hw). rewrite E. exact (Hsame _).
   - (* EDrop *)
     destruct (z_writer s) as [wr|] eqn:Hw.
     + unfold zinv in Hinv. rewrite Hw in Hinv. destruct Hinv as [Hnew [Hod Hq]].
@@ -586,6 +629,17 @@ Example ex_tree :
   query z 0 [4; 5] 1 = ARefer 91 (Some 92) None /\ query z 0 [4] 43 = AData 92 /\
   walk z 0 = [([], 6, 1); ([2; 1], 1, 81); ([4], 2, 91); ([4], 43, 92)] /\
   query z 0 [2; 1] 255 = AAny.
+Proof. repeat split; reflexivity. Qed.
+
+(* commit(true): the SOA serial is bumped unless the writer stored a new SOA; old readers keep theirs *)
+Example ex_commit_bump :
+  let s1 := run wit_zone [EWAcquire; EWOpen; EUpdate [2] 1 13] in
+  query (run s1 [ECommitBump]) 1 [] 6 = AData 2 /\
+  query (run s1 [ECommitBump]) 0 [] 6 = AData 1 /\
+  query (run s1 [ECommitBump]) 1 [3] 1 = ANx (Some 2) /\
+  query (run s1 [EUpdate [] 6 7; ECommitBump]) 1 [] 6 = AData 7 /\
+  query (run s1 [ERemove [] 6; ECommitBump]) 1 [] 6 = AData 2 /\
+  query (run s1 [ECommit]) 1 [] 6 = AData 1.
 Proof. repeat split; reflexivity. Qed.
 
 (* ---------------------------------------------------------------- write handle used after its session *)
